@@ -1,20 +1,552 @@
-(* C05/Proofs.v -- lemmas and main proofs. *)
+(* C05/Proofs.v -- basic lemmas (max, argmax, unique sort, argsort oracle) and the dense-storage theorems. *)
 From Coq Require Import ZArith List Bool Arith Lia Permutation.
 From PV Require Import C05.Model C05.Spec.
 Import ListNotations.
 Open Scope Z_scope.
 
+(* ---- list equality checkers ------------------------------------------------------------------------------ *)
 Lemma zl_eqb_eq a b : zl_eqb a b = true <-> a = b.
 Proof.
   revert b; induction a as [|x a IH]; intros [|y b]; cbn [zl_eqb]; split; try discriminate; try reflexivity.
   - rewrite andb_true_iff, Z.eqb_eq, IH. intros [-> ->]; reflexivity.
   - intros H; injection H as -> ->. rewrite Z.eqb_refl. cbn. now apply IH.
 Qed.
+Lemma nl_eqb_eq a b : nl_eqb a b = true <-> a = b.
+Proof.
+  revert b; induction a as [|x a IH]; intros [|y b]; cbn [nl_eqb]; split; try discriminate; try reflexivity.
+  - rewrite andb_true_iff, Nat.eqb_eq, IH. intros [-> ->]; reflexivity.
+  - intros H; injection H as -> ->. rewrite Nat.eqb_refl. cbn. now apply IH.
+Qed.
+Lemma zll_eqb_eq a b : zll_eqb a b = true <-> a = b.
+Proof.
+  revert b; induction a as [|x a IH]; intros [|y b]; cbn [zll_eqb]; split; try discriminate; try reflexivity.
+  - rewrite andb_true_iff, zl_eqb_eq, IH. intros [-> ->]; reflexivity.
+  - intros H; injection H as -> ->. rewrite andb_true_iff, zl_eqb_eq, IH. auto.
+Qed.
 
+Lemma memb_In x l : memb x l = true <-> In x l.
+Proof.
+  unfold memb. rewrite existsb_exists. split.
+  - intros (y & Hy & E). apply Nat.eqb_eq in E. now subst.
+  - intros H. exists x. split; [assumption|apply Nat.eqb_refl].
+Qed.
+
+(* ---- max / min / ptp / argmax ---------------------------------------------------------------------------- *)
+Lemma fold_max_ge x r : x <= fold_right Z.max x r /\ forall y, In y r -> y <= fold_right Z.max x r.
+Proof.
+  induction r as [|z r [IH1 IH2]]; cbn [fold_right In]; split; try lia; try tauto.
+  intros y [<-|H]; [lia|]. specialize (IH2 y H). lia.
+Qed.
+Lemma fold_min_le x r : fold_right Z.min x r <= x /\ forall y, In y r -> fold_right Z.min x r <= y.
+Proof.
+  induction r as [|z r [IH1 IH2]]; cbn [fold_right In]; split; try lia; try tauto.
+  intros y [<-|H]; [lia|]. specialize (IH2 y H). lia.
+Qed.
+Lemma lmax_ge l x : In x l -> x <= lmax l.
+Proof.
+  destruct l as [|y r]; [intros []|]. cbn [lmax]. destruct (fold_max_ge y r) as [H1 H2].
+  intros [<-|H]; [assumption|now apply H2].
+Qed.
+Lemma ptp_nonneg col : 0 <= ptp col.
+Proof.
+  unfold ptp. destruct col as [|x r]; cbn [lmax lmin]; [lia|].
+  pose proof (proj1 (fold_max_ge x r)). pose proof (proj1 (fold_min_le x r)). lia.
+Qed.
+
+Lemma argmax_from_spec r : forall i bi bv,
+  let k := argmax_from r i bi bv in
+  (k = bi /\ forall x, In x r -> x <= bv) \/
+  (exists j, k = (i + j)%nat /\ (j < length r)%nat /\ bv < nth j r 0 /\ forall x, In x r -> x <= nth j r 0).
+Proof.
+  induction r as [|x r IH]; intros i bi bv; cbn [argmax_from].
+  - left. split; [reflexivity|intros ? []].
+  - destruct (bv <? x) eqn:E.
+    + right. destruct (IH (S i) i x) as [[Hk Hle]|(j & Hk & Hj & Hlt & Hle)].
+      * exists 0%nat. cbn [nth length In]. repeat split; try lia.
+        intros y [<-|Hy]; [lia|now apply Hle].
+      * exists (S j). cbn [nth length In]. repeat split; try lia.
+        intros y [<-|Hy]; [lia|now apply Hle].
+    + destruct (IH (S i) bi bv) as [[Hk Hle]|(j & Hk & Hj & Hlt & Hle)].
+      * left. split; [assumption|]. intros y [<-|Hy]; [lia|now apply Hle].
+      * right. exists (S j). cbn [nth length In]. repeat split; try lia.
+        intros y [<-|Hy]; [lia|now apply Hle].
+Qed.
+
+Lemma argmax_first_spec l : l <> [] ->
+  (argmax_first l < length l)%nat /\ forall x, In x l -> x <= nth (argmax_first l) l 0.
+Proof.
+  destruct l as [|x r]; [congruence|]. intros _. cbn [argmax_first length].
+  destruct (argmax_from_spec r 1 0 x) as [[Hk Hle]|(j & Hk & Hj & Hlt & Hle)].
+  - rewrite Hk. cbn [nth]. split; [lia|]. intros y [<-|Hy]; [lia|now apply Hle].
+  - rewrite Hk. change (nth (1 + j) (x :: r) 0) with (nth j r 0). split; [lia|].
+    intros y [<-|Hy]; [lia|now apply Hle].
+Qed.
+
+Lemma argmax_first_nth l i : (i < length l)%nat -> nth i l 0 <= nth (argmax_first l) l 0.
+Proof.
+  intros Hi. apply argmax_first_spec; [destruct l; cbn in *; [lia|congruence]|]. now apply nth_In.
+Qed.
+
+(* ---- unique sort, intersect1d ----------------------------------------------------------------------------- *)
+Inductive ssorted : list nat -> Prop :=
+| ss_nil : ssorted []
+| ss_one x : ssorted [x]
+| ss_cons x y r : (x < y)%nat -> ssorted (y :: r) -> ssorted (x :: y :: r).
+
+Lemma uinsert_In x l y : In y (uinsert x l) <-> y = x \/ In y l.
+Proof.
+  induction l as [|z r IH]; cbn [uinsert In]; [intuition|].
+  destruct (x <? z)%nat eqn:E1; [cbn [In]; intuition|].
+  destruct (x =? z)%nat eqn:E2.
+  - apply Nat.eqb_eq in E2. subst. cbn [In]. intuition.
+  - cbn [In]. rewrite IH. intuition.
+Qed.
+Lemma uinsert_sorted x l : ssorted l -> ssorted (uinsert x l).
+Proof.
+  induction 1 as [|y|y z r Hyz Hs IH]; cbn [uinsert].
+  - constructor.
+  - destruct (x <? y)%nat eqn:E1; [constructor; [apply Nat.ltb_lt in E1; lia|constructor]|].
+    destruct (x =? y)%nat eqn:E2; [constructor|].
+    apply Nat.ltb_ge in E1. apply Nat.eqb_neq in E2. constructor; [lia|constructor].
+  - destruct (x <? y)%nat eqn:E1; [constructor; [apply Nat.ltb_lt in E1; lia|now constructor]|].
+    destruct (x =? y)%nat eqn:E2; [now constructor|].
+    apply Nat.ltb_ge in E1. apply Nat.eqb_neq in E2.
+    cbn [uinsert] in IH. destruct (x <? z)%nat eqn:E3.
+    + constructor; [lia|]. exact IH.
+    + destruct (x =? z)%nat eqn:E4; constructor; try lia; exact IH.
+Qed.
+Lemma ssorted_lt x l : ssorted (x :: l) -> forall y, In y l -> (x < y)%nat.
+Proof.
+  revert x; induction l as [|z r IH]; intros x H y; [intros []|].
+  inversion H; subst. intros [<-|Hy]; [assumption|]. specialize (IH z H4 y Hy). lia.
+Qed.
+Lemma ssorted_NoDup l : ssorted l -> NoDup l.
+Proof.
+  induction l as [|x r IH]; intros H; [constructor|]. constructor.
+  - intros Hin. pose proof (ssorted_lt x r H x Hin). lia.
+  - apply IH. inversion H; subst; [constructor|assumption].
+Qed.
+Lemma usort_sorted l : ssorted (usort l).
+Proof. induction l as [|x r IH]; cbn [usort fold_right]; [constructor|now apply uinsert_sorted]. Qed.
+Lemma usort_In l y : In y (usort l) <-> In y l.
+Proof.
+  induction l as [|x r IH]; cbn [usort fold_right In]; [tauto|].
+  change (fold_right uinsert [] r) with (usort r). rewrite uinsert_In, IH. intuition.
+Qed.
+Lemma intersect1d_In a b x : In x (intersect1d a b) <-> In x a /\ In x b.
+Proof. unfold intersect1d. now rewrite filter_In, usort_In, memb_In. Qed.
+Lemma NoDup_filter {A} (f : A -> bool) l : NoDup l -> NoDup (filter f l).
+Proof.
+  induction 1 as [|x r Hx Hn IH]; cbn [filter]; [constructor|].
+  destruct (f x); [constructor; [rewrite filter_In; tauto|assumption]|assumption].
+Qed.
+Lemma intersect1d_NoDup a b : NoDup (intersect1d a b).
+Proof. unfold intersect1d. apply NoDup_filter, ssorted_NoDup, usort_sorted. Qed.
+
+Lemma nth_map_lt {A B} (f : A -> B) (l : list A) dA dB i : (i < length l)%nat -> nth i (map f l) dB = f (nth i l dA).
+Proof. intros H. rewrite (nth_indep _ dB (f dA)) by (now rewrite map_length). apply map_nth. Qed.
+
+(* ---- gathering through a permutation of the positions ------------------------------------------------------ *)
+Lemma map_nth_seq {A} (l : list A) d : map (fun k => nth k l d) (seq 0 (length l)) = l.
+Proof.
+  induction l as [|x r IH]; [reflexivity|]. cbn [length seq map nth]. f_equal.
+  rewrite <- seq_shift, map_map. exact IH.
+Qed.
+Lemma gather_perm {A} (l : list A) d p : Permutation p (seq 0 (length l)) -> Permutation (map (fun k => nth k l d) p) l.
+Proof.
+  intros H. eapply Permutation_trans; [apply Permutation_map, H|]. rewrite map_nth_seq. apply Permutation_refl.
+Qed.
+Lemma perm_seq_lt p n k : Permutation p (seq 0 n) -> In k p -> (k < n)%nat.
+Proof. intros H Hk. apply (Permutation_in _ H), in_seq in Hk. lia. Qed.
+Lemma perm_seq_len p n : Permutation p (seq 0 n) -> length p = n.
+Proof. intros H. rewrite (Permutation_length H). apply seq_length. Qed.
+(* gathering a mapped list = mapping the gathered list *)
+Lemma gather_map {A B} (f : A -> B) (l : list A) dA dB p :
+  (forall k, In k p -> (k < length l)%nat) ->
+  map (fun k => nth k (map f l) dB) p = map f (map (fun k => nth k l dA) p).
+Proof.
+  intros H. rewrite map_map. apply map_ext_in. intros k Hk. apply nth_map_lt. auto.
+Qed.
+
+(* ---- order ------------------------------------------------------------------------------------------------ *)
+Lemma nonincreasing_idx l :
+  (forall i j, (i <= j < length l)%nat -> nth j l 0 <= nth i l 0) -> nonincreasing l.
+Proof.
+  induction l as [|x r IH]; intros H; [exact I|]. cbn [nonincreasing]. destruct r as [|y r']; [exact I|]. split.
+  - apply (H 0%nat 1%nat). cbn [length]. lia.
+  - apply IH. intros i j Hij. apply (H (S i) (S j)). cbn [length] in *. lia.
+Qed.
+Lemma nonincreasing_hd l x a : nonincreasing (x :: l) -> In a (x :: l) -> a <= x.
+Proof.
+  revert x; induction l as [|y r IH]; intros x H [<-|Hin]; try lia; [destruct Hin|].
+  cbn [nonincreasing] in H. destruct H as [Hyx Hr]. specialize (IH y Hr Hin). lia.
+Qed.
+Lemma nonincreasing_b_spec l : nonincreasing_b l = true <-> nonincreasing l.
+Proof.
+  induction l as [|x r IH]; [cbn; tauto|]. cbn [nonincreasing_b nonincreasing]. destruct r as [|y r']; [tauto|].
+  rewrite andb_true_iff, IH, Z.leb_le. tauto.
+Qed.
+
+Section Oracle.
+Variable argsort : list Z -> list nat.
+Hypothesis AS : Argsort_ok argsort.
+
+Lemma as_perm l : Permutation (argsort l) (seq 0 (length l)).
+Proof. apply AS. Qed.
+Lemma as_len l : length (argsort l) = length l.
+Proof. apply perm_seq_len, as_perm. Qed.
+Lemma as_lt l k : In k (argsort l) -> (k < length l)%nat.
+Proof. apply perm_seq_lt, as_perm. Qed.
+Lemma as_sorted l i j : (i <= j < length l)%nat ->
+  nth (nth i (argsort l) 0%nat) l 0 <= nth (nth j (argsort l) 0%nat) l 0.
+Proof. apply AS. Qed.
+Lemma as_NoDup l : NoDup (argsort l).
+Proof. apply (Permutation_NoDup (Permutation_sym (as_perm l))), seq_NoDup. Qed.
+Lemma rev_as_perm l : Permutation (rev (argsort l)) (seq 0 (length l)).
+Proof. eapply Permutation_trans; [apply Permutation_sym, Permutation_rev|apply as_perm]. Qed.
+
+(* the keys gathered in reversed argsort order are non-increasing *)
+Lemma rev_as_nonincreasing l : nonincreasing (map (fun k => nth k l 0) (rev (argsort l))).
+Proof.
+  apply nonincreasing_idx. rewrite map_length, rev_length, as_len. intros i j Hij.
+  rewrite !(nth_map_lt _ _ 0%nat) by (rewrite rev_length, as_len; lia).
+  rewrite !rev_nth by (rewrite as_len; lia). rewrite as_len.
+  apply as_sorted. lia.
+Qed.
+
+(* ---- get_closest_channels -------------------------------------------------------------------------------- *)
+Lemma firstn_In_nth {A} (l : list A) n x d : In x (firstn n l) -> exists i, (i < n)%nat /\ (i < length l)%nat /\ nth i l d = x.
+Proof.
+  revert n; induction l as [|y r IH]; intros [|n]; cbn [firstn In]; try tauto.
+  intros [<-|H].
+  - exists 0%nat. cbn [length nth]. repeat split; lia.
+  - destruct (IH n H) as (i & H1 & H2 & H3). exists (S i). cbn [length nth]. repeat split; try lia. assumption.
+Qed.
+Lemma nth_In_firstn {A} (l : list A) n i d : (i < n)%nat -> (i < length l)%nat -> In (nth i l d) (firstn n l).
+Proof.
+  revert n i; induction l as [|y r IH]; intros [|n] [|i]; cbn [firstn In length nth]; try lia; try tauto.
+  intros H1 H2. right. apply IH; lia.
+Qed.
+Lemma NoDup_firstn {A} (l : list A) n : NoDup l -> NoDup (firstn n l).
+Proof.
+  revert n; induction l as [|y r IH]; intros [|n] H; cbn [firstn]; try constructor.
+  - inversion H; subst. intros Hin. destruct (firstn_In_nth r n y y Hin) as (i & _ & Hi & E).
+    apply H2. rewrite <- E. now apply nth_In.
+  - inversion H; subst. now apply IH.
+Qed.
+
+Lemma dist2_nonneg a b : 0 <= dist2 a b.
+Proof.
+  unfold dist2. pose proof (Z.square_nonneg (px a - px b)). pose proof (Z.square_nonneg (py a - py b)). lia.
+Qed.
+Lemma sq_zero u : u * u = 0 -> u = 0.
+Proof. intros H. apply Z.mul_eq_0 in H. tauto. Qed.
+Lemma dist2_zero a b : dist2 a b = 0 -> a = b.
+Proof.
+  unfold dist2. destruct a as [x y], b as [x' y']. cbn [px py]. intros H.
+  pose proof (Z.square_nonneg (x - x')). pose proof (Z.square_nonneg (y - y')).
+  assert (x - x' = 0) by (apply sq_zero; lia). assert (y - y' = 0) by (apply sq_zero; lia). f_equal; lia.
+Qed.
+
+Lemma closest_nearest P bc n out : 0 <= n -> closest argsort P bc n = Some out ->
+  Nearest P bc n out /\ In bc out.
+Proof.
+  unfold closest. intros Hn. destruct (nth_error P bc) as [p0|] eqn:Ep; [|discriminate].
+  assert (Hbc : (bc < length P)%nat) by (apply nth_error_Some; congruence).
+  assert (Hp0 : nth bc P (mkpos 0 0) = p0) by (now apply nth_error_nth).
+  set (d := map (fun p => dist2 p p0) P).
+  assert (Hd : length d = length P) by (unfold d; apply map_length).
+  assert (Hdn : forall c, (c < length P)%nat -> nth c d 0 = chan_dist P bc c).
+  { intros c Hc. unfold d, chan_dist. rewrite Hp0. now apply (nth_map_lt (fun p => dist2 p p0)). }
+  set (perm := argsort d).
+  set (o := if n =? 0 then perm else firstn (Z.to_nat n) perm).
+  destruct o as [|x r] eqn:Eo; [discriminate|]. destruct (Nat.eqb x bc) eqn:Ex; [|discriminate].
+  intros H; injection H as <-. apply Nat.eqb_eq in Ex. subst x. rewrite <- Eo. split; [|rewrite Eo; now left].
+  assert (Hperm : Permutation perm (seq 0 (length P))) by (rewrite <- Hd; apply as_perm).
+  assert (Hlen : length perm = length P) by (now apply perm_seq_len).
+  assert (Hnd : NoDup perm) by apply as_NoDup.
+  unfold Nearest. destruct (n =? 0) eqn:En; subst o.
+  - repeat split; try assumption.
+    + intros c Hc. now apply (perm_seq_lt perm _ c Hperm).
+    + intros a c _ Hc Hnot. exfalso. apply Hnot. apply (Permutation_in _ (Permutation_sym Hperm)), in_seq. lia.
+  - repeat split.
+    + now apply NoDup_firstn.
+    + intros c Hc. destruct (firstn_In_nth _ _ _ 0%nat Hc) as (i & _ & Hi & <-).
+      apply (perm_seq_lt perm _ _ Hperm). now apply nth_In.
+    + rewrite firstn_length, Hlen. reflexivity.
+    + intros a c Ha Hc Hnot.
+      destruct (firstn_In_nth _ _ _ 0%nat Ha) as (i & Hi1 & Hi2 & <-).
+      assert (Hcin : In c perm) by (apply (Permutation_in _ (Permutation_sym Hperm)), in_seq; lia).
+      destruct (In_nth _ _ 0%nat Hcin) as (j & Hj & <-).
+      assert (Hge : (Z.to_nat n <= j)%nat).
+      { destruct (Nat.lt_ge_cases j (Z.to_nat n)) as [Hlt|]; [|assumption].
+        exfalso. apply Hnot. now apply nth_In_firstn. }
+      rewrite <- !Hdn.
+      * apply as_sorted. lia.
+      * apply (perm_seq_lt perm _ _ Hperm). now apply nth_In.
+      * apply (perm_seq_lt perm _ _ Hperm). now apply nth_In.
+Qed.
+
+(* with pairwise distinct positions the assertion out[0] == channel_index cannot fail *)
+Lemma closest_defined P bc n : NoDup P -> (bc < length P)%nat -> 0 <= n ->
+  exists out, closest argsort P bc n = Some out.
+Proof.
+  intros HP Hbc Hn. unfold closest.
+  destruct (nth_error P bc) as [p0|] eqn:Ep; [|apply nth_error_None in Ep; lia].
+  assert (Hp0 : nth bc P (mkpos 0 0) = p0) by (now apply nth_error_nth).
+  set (d := map (fun p => dist2 p p0) P).
+  assert (Hd : length d = length P) by (unfold d; apply map_length).
+  assert (Hdn : forall c, (c < length P)%nat -> nth c d 0 = dist2 (nth c P (mkpos 0 0)) p0).
+  { intros c Hc. unfold d. now apply (nth_map_lt (fun p => dist2 p p0)). }
+  set (perm := argsort d).
+  assert (Hperm : Permutation perm (seq 0 (length P))) by (rewrite <- Hd; apply as_perm).
+  assert (Hlen : length perm = length P) by (now apply perm_seq_len).
+  (* the first element of the sorting permutation is bc *)
+  assert (H0 : nth 0 perm 0%nat = bc).
+  { assert (Hin : In bc perm) by (apply (Permutation_in _ (Permutation_sym Hperm)), in_seq; lia).
+    destruct (In_nth _ _ 0%nat Hin) as (j & Hj & Ej).
+    assert (Hk : (nth 0 perm 0 < length P)%nat) by (apply (perm_seq_lt perm _ _ Hperm), nth_In; lia).
+    pose proof (as_sorted d 0 j ltac:(lia)) as Hs. fold perm in Hs. rewrite Ej in Hs.
+    rewrite (Hdn bc Hbc), Hp0 in Hs. rewrite (Hdn _ Hk) in Hs.
+    assert (Hz : dist2 p0 p0 = 0) by (unfold dist2; lia).
+    pose proof (dist2_nonneg (nth (nth 0 perm 0%nat) P (mkpos 0 0)) p0).
+    assert (E : nth (nth 0 perm 0%nat) P (mkpos 0 0) = p0) by (apply dist2_zero; lia).
+    rewrite <- Hp0 in E. apply (NoDup_nth P (mkpos 0 0)) in E; auto. }
+  destruct perm as [|x r] eqn:Eperm; [cbn [length] in Hlen; lia|]. cbn [nth] in H0. subst x.
+  destruct (n =? 0) eqn:En.
+  - rewrite Nat.eqb_refl. eauto.
+  - assert (Z.to_nat n = S (Z.to_nat n - 1)) as -> by (apply Z.eqb_neq in En; lia).
+    cbn [firstn]. rewrite Nat.eqb_refl. eauto.
+Qed.
+
+(* ---- _find_best_channels --------------------------------------------------------------------------------- *)
+Lemma nth_map_ptp T c : nth c (map ptp T) 0 = amp_of T c.
+Proof. unfold amp_of. change 0 with (ptp []) at 1. apply map_nth. Qed.
+
+Lemma find_best_spec P shanks n T t b :
+  0 <= n -> length shanks = length P -> length T = length P ->
+  find_best_channels argsort P shanks n (map ptp T) t = Some b ->
+  Peak T (b_best b) /\
+  Dense_channels P shanks n t T (b_best b) (b_channels b) /\
+  NoDup (b_channels b) /\ In (b_best b) (b_channels b) /\
+  nonincreasing (map (amp_of T) (b_channels b)) /\
+  (forall c, In c (b_channels b) -> (c < length T)%nat).
+Proof.
+  intros Hn Hsh HT. unfold find_best_channels.
+  destruct (map ptp T) as [|a0 ar] eqn:Eamp; [discriminate|]. rewrite <- Eamp.
+  set (amp := map ptp T). set (bc := argmax_first amp).
+  assert (Hamp_len : length amp = length T) by apply map_length.
+  assert (Hne : amp <> []) by (unfold amp; rewrite Eamp; discriminate).
+  destruct (closest argsort P bc n) as [close|] eqn:Ec; [|discriminate].
+  destruct (closest_nearest P bc n close Hn Ec) as [Hnear Hbcin].
+  set (peak := filter (fun c => tp t * nth bc amp 0 <=? tq t * nth c amp 0) (seq 0 (length amp))).
+  set (on_shank := filter (fun c => nth c shanks 0 =? nth bc shanks 0) (seq 0 (length shanks))).
+  set (ids := intersect1d peak (intersect1d close on_shank)).
+  set (keys := map (fun c => nth c amp 0) ids).
+  set (order := rev (argsort keys)).
+  set (ids' := map (fun k => nth k ids 0%nat) order).
+  destruct (memb bc ids') eqn:Em; [|discriminate]. intros H; injection H as <-. cbn [b_best b_channels].
+  assert (Hklen : length keys = length ids) by apply map_length.
+  assert (Hoperm : Permutation order (seq 0 (length ids))) by (rewrite <- Hklen; apply rev_as_perm).
+  assert (Hperm : Permutation ids' ids) by (now apply gather_perm).
+  assert (HIn : forall c, In c ids' <-> In c ids).
+  { intros c; split; apply Permutation_in; [assumption|now apply Permutation_sym]. }
+  assert (Hids : forall c, In c ids <->
+            In c close /\ nth c shanks 0 = nth bc shanks 0 /\ tp t * amp_of T bc <= tq t * amp_of T c).
+  { intros c. unfold ids. rewrite !intersect1d_In. unfold peak, on_shank.
+    rewrite !filter_In, !in_seq, Z.leb_le, Z.eqb_eq. unfold amp. rewrite !nth_map_ptp.
+    destruct Hnear as (_ & Hlt & _). split; [tauto|]. intros (H1 & H2 & H3).
+    specialize (Hlt c H1). rewrite map_length. repeat split; try assumption; lia. }
+  assert (Hbc : (bc < length T)%nat) by (rewrite <- Hamp_len; now apply argmax_first_spec).
+  repeat split.
+  - exact Hbc.
+  - intros c Hc. rewrite <- !nth_map_ptp. apply argmax_first_nth. now rewrite map_length.
+  - exists close. split; [assumption|]. intros c. now rewrite HIn, Hids.
+  - apply (Permutation_NoDup (Permutation_sym Hperm)), intersect1d_NoDup.
+  - now apply memb_In.
+  - (* amplitudes of the reordered channels are the keys in reversed argsort order *)
+    assert (E : map (amp_of T) ids' = map (fun k => nth k keys 0) order).
+    { unfold ids', keys. rewrite map_map. apply map_ext_in. intros k Hk.
+      assert (Hk' : (k < length ids)%nat) by (now apply (perm_seq_lt order _ k Hoperm)).
+      rewrite (nth_map_lt _ _ 0%nat) by exact Hk'. unfold amp. now rewrite nth_map_ptp. }
+    rewrite E. apply rev_as_nonincreasing.
+  - intros c Hc. apply HIn, Hids in Hc. destruct Hc as (Hc & _). destruct Hnear as (_ & Hlt & _).
+    rewrite HT. now apply Hlt.
+Qed.
+
+(* the model's amplitude vector of _find_best_channels is the amplitude of its channels *)
+Lemma find_best_amplitude P shanks n amp t b :
+  find_best_channels argsort P shanks n amp t = Some b ->
+  b_amplitude b = map (fun c => nth c amp 0) (b_channels b).
+Proof.
+  unfold find_best_channels. destruct amp as [|a0 ar]; [discriminate|].
+  destruct (closest argsort P _ n); [|discriminate].
+  match goal with |- (if ?c then _ else _) = _ -> _ => destruct c end; [|discriminate].
+  intros H; injection H as <-. reflexivity.
+Qed.
+
+(* ---- unwhitening is the matrix product ------------------------------------------------------------------ *)
+Lemma dotZ_seq (cols : list (list Z)) (W : list (list Z)) s j :
+  length cols = length W ->
+  dotZ (map (fun col => nth s col 0) cols) (wcol W (seq 0 (length W)) j) =
+  zsum (map (fun i => nth s (nth i cols []) 0 * nth j (nth i W []) 0) (seq 0 (length W))).
+Proof.
+  intros Hlen. unfold dotZ, wcol, zsum. f_equal.
+  rewrite <- (map_nth_seq cols []) at 1. rewrite Hlen, map_map.
+  generalize (seq 0 (length W)). intros l. induction l as [|i l IH]; [reflexivity|].
+  cbn [map combine fst snd]. now rewrite IH.
+Qed.
+
+Lemma unwhiten_dense_spec W cols U : unwhiten_dense W cols = Some U ->
+  length cols = length W /\ Unwhitened W cols U.
+Proof.
+  unfold unwhiten_dense. destruct (Nat.eqb (length cols) (length W)) eqn:E; [|discriminate].
+  apply Nat.eqb_eq in E. intros H; injection H as <-. split; [assumption|]. unfold Unwhitened.
+  rewrite map_length, seq_length. split; [reflexivity|]. intros j Hj.
+  rewrite (nth_map_lt _ _ 0%nat) by (rewrite seq_length; exact Hj).
+  rewrite seq_nth by exact Hj. cbn [Nat.add]. unfold ucol.
+  rewrite map_length, seq_length. split; [reflexivity|]. intros s Hs.
+  rewrite (nth_map_lt _ _ 0%nat) by (rewrite seq_length; exact Hs).
+  rewrite seq_nth by exact Hs. cbn [Nat.add]. now apply dotZ_seq.
+Qed.
+
+Lemma dense_full_spec d r T : dense_full d r = Some T -> Full_template d r T.
+Proof.
+  unfold dense_full, Full_template. destruct (nth_error (d_templates d) (r_tid r)) as [cols|]; [|discriminate].
+  intros H. exists cols. split; [reflexivity|]. destruct (r_unwhiten r).
+  - now apply unwhiten_dense_spec.
+  - now injection H as <-.
+Qed.
+
+(* ---- _get_template_dense --------------------------------------------------------------------------------- *)
+Definition req_thr (d : dataset) (r : request) : thr := match r_thr r with Some t => t | None => d_thr d end.
+
+Lemma aligned_gather T ids b : (forall c, In c ids -> (c < length T)%nat) ->
+  Aligned T (mkrec (map (fun c => nth c T []) ids) (map ptp (map (fun c => nth c T []) ids)) b ids).
+Proof.
+  intros H. unfold Aligned. cbn [t_template t_amplitude t_channels]. rewrite !map_length.
+  repeat split; intros.
+  - apply H. now apply nth_In.
+  - now apply (nth_map_lt (fun c => nth c T [])).
+  - change 0 with (ptp []) at 1. apply map_nth.
+Qed.
+
+Theorem dense_spec d r rec :
+  0 <= d_nclosest d -> get_template_dense argsort d r = Some rec ->
+  exists T, Full_template d r T /\ length T = length (d_pos d) /\ Aligned T rec /\ Peak T (t_best rec) /\
+    match r_chans r with
+    | None => Dense_channels (d_pos d) (d_shanks d) (d_nclosest d) (req_thr d r) T (t_best rec) (t_channels rec) /\
+              Sorted_rec T rec
+    | Some l => t_channels rec = map Z.to_nat l /\ Forall (fun c => 0 <= c < Z.of_nat (length (d_pos d))) l
+    end.
+Proof.
+  intros Hn. unfold get_template_dense. destruct (dense_full d r) as [T|] eqn:ET; [|discriminate].
+  destruct (Nat.eqb (length T) (length (d_pos d)) && Nat.eqb (length (d_shanks d)) (length (d_pos d))) eqn:Ewf;
+    cbn [negb]; [|discriminate].
+  apply andb_true_iff in Ewf. destruct Ewf as [HT Hsh]. apply Nat.eqb_eq in HT, Hsh.
+  fold (req_thr d r).
+  destruct (find_best_channels argsort (d_pos d) (d_shanks d) (d_nclosest d) (map ptp T) (req_thr d r)) as [b|] eqn:Eb;
+    [|discriminate].
+  destruct (find_best_spec _ _ _ _ _ _ Hn Hsh HT Eb) as (Hpeak & Hch & Hnd & Hbin & Hni & Hlt).
+  intros Hrec. exists T. split; [now apply dense_full_spec|]. split; [assumption|]. revert Hrec.
+  destruct (r_chans r) as [l|].
+  - destruct (forallb (chan_ok (length (d_pos d))) l) eqn:El; [|discriminate].
+    intros Hrec; injection Hrec as <-. cbn [t_best t_channels].
+    assert (HF : Forall (fun c => 0 <= c < Z.of_nat (length (d_pos d))) l).
+    { apply Forall_forall. intros c Hc. rewrite forallb_forall in El. specialize (El c Hc).
+      unfold chan_ok in El. lia. }
+    split; [|split; [exact Hpeak|split; [reflexivity|exact HF]]].
+    apply aligned_gather. intros c Hc. apply in_map_iff in Hc. destruct Hc as (z & <- & Hz).
+    rewrite Forall_forall in HF. specialize (HF z Hz). lia.
+  - intros Hrec; injection Hrec as <-. cbn [t_best t_channels].
+    split; [now apply aligned_gather|]. split; [exact Hpeak|]. split; [exact Hch|].
+    unfold Sorted_rec. cbn [t_best t_channels t_amplitude t_template].
+    split; [exact Hnd|]. split; [rewrite map_map; exact Hni|]. split; [exact Hbin|]. split; [exact Hpeak|].
+    intros c0 Hc0.
+    (* the first listed channel has the maximal amplitude *)
+    destruct (b_channels b) as [|c1 rest] eqn:Ech; [discriminate|]. injection Hc0 as <-.
+    cbn [map] in Hni. pose proof (nonincreasing_hd _ _ (amp_of T (b_best b)) Hni) as Hle.
+    specialize (Hle ltac:(change (In (amp_of T (b_best b)) (map (amp_of T) (c1 :: rest))); now apply in_map)).
+    destruct Hpeak as [_ Hmax]. specialize (Hmax c1 (Hlt c1 (or_introl eq_refl))). lia.
+Qed.
+
+(* the guard under which _get_template_dense returns *)
+Theorem dense_defined d r cols :
+  nth_error (d_templates d) (r_tid r) = Some cols ->
+  length cols = length (d_pos d) -> length (d_wmi d) = length (d_pos d) -> length (d_shanks d) = length (d_pos d) ->
+  NoDup (d_pos d) -> (0 < length (d_pos d))%nat -> 0 <= d_nclosest d ->
+  0 <= tp (req_thr d r) <= tq (req_thr d r) ->
+  match r_chans r with Some l => Forall (fun c => 0 <= c < Z.of_nat (length (d_pos d))) l | None => True end ->
+  exists rec, get_template_dense argsort d r = Some rec.
+Proof.
+  intros Ecols Hc HW Hsh HP Hpos Hn Hthr Hl. unfold get_template_dense, dense_full. rewrite Ecols.
+  assert (ET : exists T, (if r_unwhiten r then unwhiten_dense (d_wmi d) cols else Some cols) = Some T /\
+                         length T = length (d_pos d)).
+  { destruct (r_unwhiten r).
+    - unfold unwhiten_dense. rewrite Hc, HW, Nat.eqb_refl. eexists. split; [reflexivity|].
+      now rewrite map_length, seq_length.
+    - eauto. }
+  destruct ET as (T & -> & HT). rewrite HT, Hsh, !Nat.eqb_refl. cbn [andb negb].
+  fold (req_thr d r). set (t := req_thr d r) in *.
+  assert (Eb : exists b, find_best_channels argsort (d_pos d) (d_shanks d) (d_nclosest d) (map ptp T) t = Some b).
+  { unfold find_best_channels. destruct (map ptp T) as [|a0 ar] eqn:Eamp.
+    { apply (f_equal (@length Z)) in Eamp. rewrite map_length in Eamp. cbn in Eamp. lia. }
+    rewrite <- Eamp. set (amp := map ptp T). set (bc := argmax_first amp).
+    assert (Hamp_len : length amp = length T) by apply map_length.
+    assert (Hne : amp <> []) by (unfold amp; rewrite Eamp; discriminate).
+    assert (Hbc : (bc < length (d_pos d))%nat) by (rewrite <- HT, <- Hamp_len; now apply argmax_first_spec).
+    destruct (closest_defined (d_pos d) bc (d_nclosest d) HP Hbc Hn) as (close & Ec). rewrite Ec.
+    destruct (closest_nearest _ _ _ _ Hn Ec) as [_ Hbcin].
+    match goal with |- exists b, (if memb bc ?l then _ else _) = _ => assert (Hin : In bc l) end.
+    { set (keys := map (fun c => nth c amp 0) (intersect1d _ _)).
+      match goal with |- In bc (map _ (rev (argsort ?k))) => set (K := k) end.
+      match goal with |- In bc (map (fun k => nth k ?i 0%nat) _) => set (ids := i) end.
+      assert (Hklen : length K = length ids) by apply map_length.
+      assert (Hperm : Permutation (map (fun k => nth k ids 0%nat) (rev (argsort K))) ids).
+      { apply gather_perm. rewrite <- Hklen. apply rev_as_perm. }
+      apply (Permutation_in _ (Permutation_sym Hperm)). unfold ids.
+      rewrite !intersect1d_In, !filter_In, !in_seq, Z.leb_le, Z.eqb_eq.
+      assert (H1 : (0 <= bc < 0 + length amp)%nat) by (rewrite Hamp_len, HT; lia).
+      assert (H2 : tp t * nth bc amp 0 <= tq t * nth bc amp 0).
+      { unfold amp. rewrite nth_map_ptp. pose proof (ptp_nonneg (nth bc T [])). unfold amp_of. nia. }
+      assert (H3 : (0 <= bc < 0 + length (d_shanks d))%nat) by (rewrite Hsh; lia).
+      tauto. }
+    apply memb_In in Hin. rewrite Hin. eauto. }
+  destruct Eb as (b & ->).
+  destruct (r_chans r) as [l|]; [|eauto].
+  assert (forallb (chan_ok (length (d_pos d))) l = true) as ->; [|eauto].
+  apply forallb_forall. intros c Hcin. rewrite Forall_forall in Hl. specialize (Hl c Hcin). unfold chan_ok. lia.
+Qed.
+End Oracle.
+
+(* ---- checkers ------------------------------------------------------------------------------------------------ *)
 Lemma aligned_b_sound T r : aligned_b T r = true -> Aligned T r.
 Proof.
   unfold aligned_b, Aligned. rewrite !andb_true_iff, !Nat.eqb_eq, forallb_forall.
   intros [[H1 H2] H3]. repeat split; try assumption.
   all: specialize (H3 j); rewrite in_seq in H3; specialize (H3 ltac:(lia));
     rewrite !andb_true_iff, Nat.ltb_lt, zl_eqb_eq, Z.eqb_eq in H3; tauto.
+Qed.
+
+Lemma nodup_b_spec l : nodup_b l = true -> NoDup l.
+Proof.
+  induction l as [|x r IH]; cbn [nodup_b]; [constructor|]. rewrite andb_true_iff, negb_true_iff.
+  intros [H1 H2]. constructor; [|now apply IH]. intros Hin. apply memb_In in Hin. congruence.
+Qed.
+Lemma peak_b_sound T b : peak_b T b = true -> Peak T b.
+Proof.
+  unfold peak_b, Peak. rewrite andb_true_iff, Nat.ltb_lt, forallb_forall. intros [H1 H2]. split; [assumption|].
+  intros c Hc. apply Z.leb_le, H2, in_seq. lia.
+Qed.
+Lemma sorted_b_sound T r : sorted_b T r = true -> Sorted_rec T r.
+Proof.
+  unfold sorted_b, Sorted_rec. rewrite !andb_true_iff. intros [[[[H1 H2] H3] H4] H5].
+  repeat split.
+  - now apply nodup_b_spec.
+  - now apply nonincreasing_b_spec.
+  - now apply memb_In.
+  - now apply peak_b_sound.
+  - now apply peak_b_sound.
+  - intros c0 Hc0. destruct (t_channels r) as [|c1 rest]; [discriminate|]. injection Hc0 as <-.
+    now apply Z.eqb_eq.
 Qed.
